@@ -105,7 +105,7 @@ let run_model (engine : string) (prog : program) (h : n list) (start : int) (bud
 (* ---- property evaluation on the implementation's own results (no model involved) ---- *)
 type rrec = { engine : string; status : string; steps : int; ms : imatch list }
 
-let () =
+let main_exec () =
   let budget = ref 100000 in
   (match Array.to_list Sys.argv with
    | _ :: "exec" :: b :: _ -> budget := ios b
@@ -210,3 +210,8 @@ let () =
     done
   with End_of_file -> ());
   Printf.printf "SUMMARY cases=%d runs=%d mismatches=%d nontrivial=%d model_steps=%d propviol=%d inconclusive=%d\n" !cases !runs !mism !nontrivial !total_steps !pviol !inconclusive
+
+let () =
+  match Array.to_list Sys.argv with
+  | _ :: "api" :: _ -> Apidrv.run ()
+  | _ -> main_exec ()
